@@ -67,6 +67,7 @@ inline void Enter(MWorld& w, u64 request, int coro, bool blocking) {
   while (in > mx && !w.max_inside.compare_exchange_weak(mx, in, kRlx)) {
   }
   w.grants.fetch_add(1, kRlx);
+  VF_W(w.plain, "C04,C14");
   long before = w.plain;
   w.plain = before + 1;
   u32 pos = w.nlog.fetch_add(1, kRlx);
@@ -323,6 +324,7 @@ inline void EnterW(SWorld& w) {
   if (wr > 1 || w.readers.load(kRlx) != 0) {
     w.bad_overlap.fetch_add(1, kRlx);
   }
+  VF_W(w.plain, "C04,C15");
   w.plain = w.plain + 1;
   w.grants.fetch_add(1, kRlx);
 }
@@ -340,6 +342,7 @@ inline void EnterR(SWorld& w) {
   if (w.writers.load(kRlx) != 0) {
     w.bad_overlap.fetch_add(1, kRlx);
   }
+  VF_R(w.plain, "C04,C15");
   long a = w.plain;  // plain read under the shared lock
   (void)a;
   w.grants.fetch_add(1, kRlx);
